@@ -88,6 +88,21 @@ pub fn check_file(text: &str) -> Option<(String, String)> {
                 return Some(("diagnostic range splits a character".to_string(), format!("{} range {:?} in {:?}", what, range, src)));
             }
         }
+        // A type / syntax error must be blamed on a file line that, analysed on its own, has
+        // that very error (the verdict on a line's own text does not depend on its neighbours).
+        for m in a.messages() {
+            if let DiagnosticMessage::Error(l, e) = m {
+                let kind = err_kind(&e.error);
+                if kind == "TypeMismatch" || kind.starts_with("Syntax(Unexpected") || kind.starts_with("Syntax(Expected") {
+                    let src = lines.get(*l).copied().unwrap_or("").to_string();
+                    let alone = SourceFileAnalyzer::analyze(src.clone());
+                    let same = alone.messages().iter().any(|x| matches!(x, DiagnosticMessage::Error(_, e2) if err_kind(&e2.error) == kind));
+                    if !same {
+                        return Some(("error blamed on a line that does not have it".to_string(), format!("{} reported on file line {} ({:?}), which analysed alone has no such error", kind, l, src)));
+                    }
+                }
+            }
+        }
         for (i, toks) in a.token_types().iter().enumerate() {
             let src = lines[i];
             let mut prev_end = 0usize;
@@ -150,6 +165,26 @@ pub fn run(thorough: bool) -> Report {
     run_menu(&menu, n1, &mut by_sig, &mut files);
     let n2 = if thorough { 5 } else { 4 };
     run_menu(&dups, n2, &mut by_sig, &mut files);
+
+    // long files: one menu line repeated 120 times followed by another menu line (counts of
+    // lines / diagnostics beyond any small threshold)
+    {
+        let pairs: Vec<(usize, usize)> = (0..menu.len()).flat_map(|a| (0..menu.len()).map(move |b| (a, b))).collect();
+        files += pairs.len() as u64;
+        let v: Vec<(String, String, String)> = pairs
+            .par_iter()
+            .filter_map(|(a, b)| {
+                let mut text = vec![menu[*a]; 120].join("\n");
+                text.push('\n');
+                text.push_str(menu[*b]);
+                text.push('\n');
+                check_file(&text).map(|(s, d)| (s, d, format!("{:?} x 120 + {:?}", menu[*a], menu[*b])))
+            })
+            .collect();
+        for (s, d, t) in v {
+            note(format!("{} (long file)", s), d, t, &mut by_sig);
+        }
+    }
 
     // character level
     let chars = ["1", "0", " ", "\n", "\r", "\"", "A", "$", "=", ":", "é", "%"];
